@@ -315,6 +315,25 @@ def selftest_corrupt(module, events):
     return evs
 
 
+
+def tlapm(module, deps, name, timeout=900):
+    """check the proofs of spec/<module>.tla with the TLA+ proof system in a scratch copy; returns {ok, obligations, out}"""
+    d = os.path.join(WORK, "tlapm", name)
+    shutil.rmtree(d, ignore_errors=True)
+    os.makedirs(d)
+    for m in [module] + list(deps):
+        shutil.copy(os.path.join(ROOT, "spec", m + ".tla"), d)
+    t0 = time.time()
+    try:
+        p = subprocess.run(["timeout", str(timeout), "tlapm", "--threads", "8", module + ".tla"], cwd=d, capture_output=True, text=True)
+    except FileNotFoundError:
+        raise ToolError("tlapm is not installed")
+    out = p.stdout + p.stderr
+    m = re.search(r"All (\d+) obligations? proved", out)
+    res = {"ok": bool(m) and p.returncode == 0, "obligations": int(m.group(1)) if m else 0, "out": out[-3000:], "seconds": round(time.time() - t0, 1), "module": module}
+    shutil.rmtree(d, ignore_errors=True)
+    return res
+
 def validate_trace(module, cfg_text, name, events, timeout=900):
     """Write `events` as NDJSON, run the trace specification. Returns dict:
     accepted, matched (number of events consumed), rejected_event, drift, states."""
